@@ -464,12 +464,21 @@ func (o *ObjectSchema) applySubObjectDefaultValues(propertyID string, property *
 		return
 	}
 	data := map[string]any{}
-	if _, ok := rawData[propertyID]; ok {
-		data = rawData[propertyID].(map[string]any)
+	if existing, ok := rawData[propertyID]; ok {
+		existingMap, isMap := existing.(map[string]any)
+		if !isMap {
+			return // Not a map, so there is nothing to merge into; the property's type will reject it.
+		}
+		// Copy, since this is the property's decoded default, which is shared between calls.
+		for k, v := range existingMap {
+			data[k] = v
+		}
 	}
 	subObjectDefaults := subObject.GetDefaults()
 	for k, v := range subObjectDefaults {
-		data[k] = v
+		if _, alreadySet := data[k]; !alreadySet {
+			data[k] = v
+		}
 	}
 	for subPropertyID, subProperty := range subObject.Properties() {
 		o.applySubObjectDefaultValues(subPropertyID, subProperty, data)
